@@ -137,8 +137,7 @@ msort_(List, Sorted) :-
     pairs_keys(SortedPairs, Sorted).
 
 add_vertices(Graph, Vertices, NewGraph) :-
-    % msort/2 not available in Scryer Prolog yet: msort(Vertices, V1),
-    msort_(Vertices, V1),
+    sort(Vertices, V1),
     add_vertices_to_s_graph(V1, Graph, NewGraph).
 
 add_vertices_to_s_graph(L, [], NL) :-
